@@ -35,12 +35,12 @@ func main() {
 		drv:   drv,
 		tieC:  res.Tie("coll-seq", "K1", "random call sequences on a Collection (ids from {'',a,b,c,A,B}+generated, every subset of the write/read options, id interceptors, fixed/ticking clock, scripted rng incl. forced collisions/exhaustion); compared per call: result, code, bus events, callbacks, contents with stored times, clock. distinct = distinct (config, call, contents-before)"),
 		tieV:  res.Tie("value-seq", "K1", "random call sequences on a Value (with/without initial value, writable fields, all write options); compared per call as above"),
-		tieS:  res.Tie("small-scope", "K2", "ALL call sequences up to the stated length over ids {a,b}, values {1//-,2/x/-}, ops add/upd/upd+create/del/del+allow-missing/get/list; and (length <=3) ALL sequences under the lower-casing id interceptor over ids {a,A,''} with id generation from a colliding rng, and ALL sequences of writes on one Value / one item with restricted writable fields, each write widening them its own way (none, all-writable, more-writable, update mask, reset mask), also on OpenClosePosition with only open_percent writable next to open_percent_tween; distinct = distinct sequences"),
+		tieS:  res.Tie("small-scope", "K2", "ALL call sequences up to the stated length over ids {a,b}, values {1//-,2/x/-}, ops add/upd/upd+create/del/del+allow-missing/get/list; and (length <=3) ALL sequences under the lower-casing id interceptor over ids {a,A,''} with id generation from a colliding rng, ALL sequences under a prefixing id interceptor ('' -> '-') over ids {'','-'} with and without id generation, and ALL sequences of writes on one Value / one item with restricted writable fields, each write widening them its own way (none, all-writable, more-writable, update mask, reset mask), also on OpenClosePosition with only open_percent writable next to open_percent_tween; distinct = distinct sequences"),
 		tieO:  res.Tie("shared-options", "K2", "ALL call sequences up to the stated length over add/upd/del/get/list on one id where every call takes a view opts[:k] (every k; for two of the lists also opts[1:k]) of ONE option slice with spare capacity (a caller re-using its option list): compared per call as above; distinct = distinct sequences"),
 		tieM:  res.Tie("mask-shapes", "K2", "ALL combinations of writable fields x update mask x reset mask x stored message x written message over masks naming the nested message field, its sub-fields, both, and other fields (parents/children), one Update (create-if-absent) followed by Gets under nested read masks; compared per call as above; distinct = distinct combinations"),
 		tieR:  res.Tie("resource-options", "K2", "ALL ordered lists up to the stated length of resource options (WithWritableFields mask/nil, WithWritablePaths, WithIDInterceptor f/nil, WithInitialValue v/nil, WithInitialRecord incl. the same id twice and two spellings of one id, WithEquivalence, EmptyOption) given to NewCollection / NewValue, followed by a fixed probe sequence (List, Get by both spellings, masked Update, Add, Delete / Get, Set, Get): model (fold of the list as computeConfig does) vs code, per call as above, and whether construction panics; distinct = distinct (option list, call)"),
 		tieP:  res.Tie("mask-paths", "K2", "ALL lists of path strings up to the stated length over an alphabet of real paths of OpenClosePosition (incl. the siblings open_percent / open_percent_tween, whose names are related by textual prefix, and paths one and two levels inside the latter) and of TestAllTypes (three levels), handed to a Value as read mask, update mask, reset mask and writable fields: the leaf fields acted on, code vs the string-level model of withoutNestedPaths/nestedMask; and every path of the alphabet as update path against every writable list up to length 2 (Validate), code vs isWritablePath of the model; distinct = distinct (type, site, list)"),
-		tieN:  res.Tie("nested-calls", "K2", "ALL combinations of a Value never written / constructed with an initial value / written once x a write whose expected check, before or after interceptor (11 option lists: masks, expected value, failing and passing checks, the callback switched off again) calls the same Value again x every list of up to 2 nested calls over 6 (writes of a new / the stored / the zero message, a failing write, a masked write, a read), followed by a Get; compared per call as above plus what the nested calls returned; distinct = distinct scripts"),
+		tieN:  res.Tie("nested-calls", "K2", "ALL combinations of a Value never written / constructed with an initial value / written once x a write whose expected check, before or after interceptor (11 option lists: masks, expected value, failing and passing checks, the callback switched off again) calls the same Value again x every list of up to 2 nested calls over 6 (writes of a new / the stored / the zero message, a failing write, a masked write, a read), followed by a Get; the same on a Collection (item absent / stored / stored as the empty message x 8 Update/Add and 5 Delete option lists - Delete's expected check makes the calls - x every list of up to 2 nested calls over 8); compared per call as above plus what the nested calls returned; distinct = distinct scripts"),
 		mon:   res.Monitor("reference-map", "every call of every tie run is checked against a plain Go register/map oracle (fieldwise merge) and the property's clauses: failed call => contents and clock-free state unchanged and no bus event; List = sorted filtered contents; generated id non-empty, unused, reported once, usable"),
 	}
 	r := lib.NewRand(f.Seed)
@@ -593,7 +593,7 @@ func genScript(r *rand.Rand, n int) Script {
 			}
 		}
 		// one write in six makes calls on the same resource from one of its own callbacks (nested.go)
-		if !s.Share && op.Off == 0 && (op.Op == "vset" || op.Op == "upd" || op.Op == "add") && r.Intn(6) == 0 {
+		if !s.Share && op.Off == 0 && (op.Op == "vset" || op.Op == "upd" || op.Op == "add" || op.Op == "del") && r.Intn(6) == 0 {
 			var cur *rmsg
 			if s.Cfg.Kind == "val" {
 				cur = o.val
